@@ -150,40 +150,66 @@ type tcase struct {
 	Idx            int      `json:"-"`
 }
 
-func enumerate(thorough bool) []tcase {
-	var out []tcase
-	maxTok, alpha, depth := 2, "PZN", 3
+// space is the enumerated case space, generated lazily by index (the thorough tier has ~8e5 cases and
+// every worker process needs only its own stride).
+type space struct {
+	texts   []string
+	textH   []string // histories for text cases
+	opts    []optCombo
+	optH    []string // histories for option cases
+	nText   int
+	nOpt    int
+	indices []int // nil = all; otherwise the selected subset (C13_MAXCASES)
+}
+
+func enumerate(thorough bool) *space {
+	maxTok := 2
 	if thorough {
 		maxTok = 3
 	}
-	hs := histories(alpha, depth)
-	for _, pl := range placements {
-		for _, tx := range texts(maxTok) {
-			for _, h := range hs {
-				for _, cold := range []bool{false, true} {
-					// creation in the same transaction as the first commit when warm, separately when cold:
-					// both creation styles are crossed with everything in the option cases below.
-					out = append(out, tcase{Placement: pl, Text: tx, Opts: baseOpts, History: h, Cold: cold, CreateSeparate: cold})
-				}
-			}
-		}
-	}
+	sp := &space{texts: texts(maxTok), textH: histories("PZN", 3), opts: optionCombos(thorough)}
+	sp.optH = sp.textH
 	if thorough {
-		hs = histories("PZNAE", 4)
+		sp.optH = histories("PZNAE", 4)
 	}
-	for _, o := range optionCombos(thorough) {
-		for _, h := range hs {
-			for _, cold := range []bool{false, true} {
-				for _, sep := range []bool{false, true} {
-					out = append(out, tcase{Opts: o, History: h, Cold: cold, CreateSeparate: sep})
-				}
-			}
-		}
+	sp.nText = len(placements) * len(sp.texts) * len(sp.textH) * 2
+	sp.nOpt = len(sp.opts) * len(sp.optH) * 4
+	return sp
+}
+
+func (sp *space) Len() int {
+	if sp.indices != nil {
+		return len(sp.indices)
 	}
-	for i := range out {
-		out[i].Idx = i
+	return sp.nText + sp.nOpt
+}
+
+// At returns case number i. Order: text cases by placement, text (shortest first), history, cache mode;
+// then option cases by option combination, history, cache mode, creation style.
+func (sp *space) At(i int) tcase {
+	if sp.indices != nil {
+		i = sp.indices[i]
 	}
-	return out
+	idx := i
+	if i < sp.nText {
+		cold := i%2 == 1
+		i /= 2
+		h := sp.textH[i%len(sp.textH)]
+		i /= len(sp.textH)
+		tx := sp.texts[i%len(sp.texts)]
+		i /= len(sp.texts)
+		// creation in the same transaction as the first commit when warm, separately when cold: both
+		// creation styles are crossed with everything in the option cases.
+		return tcase{Placement: placements[i], Text: tx, Opts: baseOpts, History: h, Cold: cold, CreateSeparate: cold, Idx: idx}
+	}
+	i -= sp.nText
+	sep := i%2 == 1
+	i /= 2
+	cold := i%2 == 1
+	i /= 2
+	h := sp.optH[i%len(sp.optH)]
+	i /= len(sp.optH)
+	return tcase{Opts: sp.opts[i], History: h, Cold: cold, CreateSeparate: sep, Idx: idx}
 }
 
 // isPrepass selects, for every (placement, text), two short warm-cache histories that reach the
@@ -608,23 +634,22 @@ func main() {
 		// debugging / mutation-testing aid: only an evenly strided subset of the enumeration
 		var n int
 		fmt.Sscan(mc, &n)
-		if n > 0 && n < len(cases) {
-			var sub []tcase
+		if n > 0 && n < cases.Len() {
+			total := cases.Len()
 			for i := 0; i < n; i++ {
-				sub = append(sub, cases[i*len(cases)/n])
+				cases.indices = append(cases.indices, i*total/n)
 			}
-			cases = sub
 			if ev.Job() == "" {
 				run.NotExhaustive("C13_MAXCASES set: only " + mc + " cases run")
 			}
 		}
 	}
-
 	if only := os.Getenv("C13_ONLY"); only != "" {
 		// debugging aid: run the cases whose JSON contains the given substring, in-process
 		w := &worker{run: run, base: fmt.Sprintf("/dev/shm/c13_%d_only", os.Getpid()), coldCache: cache.NewL2InMemoryCache()}
 		os.MkdirAll(w.base, 0o755)
-		for _, c := range cases {
+		for i := 0; i < cases.Len(); i++ {
+			c := cases.At(i)
 			if strings.Contains(mustJSON(c), only) {
 				if os.Getenv("C13_KEEP") != "" {
 					keepDir = true
@@ -667,17 +692,23 @@ func main() {
 		w := &worker{run: run, base: fmt.Sprintf("/dev/shm/c13_%d_%s", os.Getpid(), job), coldCache: cache.NewL2InMemoryCache()}
 		os.MkdirAll(w.base, 0o755)
 		if job == "pre" {
-			for _, c := range cases {
-				if isPrepass(c) {
+			for i := 0; i < cases.Len(); i++ {
+				if c := cases.At(i); isPrepass(c) {
 					w.runCase(c)
 				}
 			}
 		} else {
 			var j int
 			fmt.Sscan(job, &j)
-			for i := j; i < len(cases); i += nJobs {
-				if !isPrepass(cases[i]) {
-					w.runCase(cases[i])
+			var deadline int64
+			fmt.Sscan(os.Getenv("C13_DEADLINE"), &deadline)
+			for i := j; i < cases.Len(); i += nJobs {
+				if deadline > 0 && time.Now().Unix() > deadline {
+					run.NotExhaustive(fmt.Sprintf("global time budget reached in job %d at case %d of %d", j, i, cases.Len()))
+					break
+				}
+				if c := cases.At(i); !isPrepass(c) {
+					w.runCase(c)
 				}
 			}
 		}
@@ -685,10 +716,12 @@ func main() {
 		run.EmitPartial()
 	}
 
-	dl := 10 * time.Minute
+	budget := 12 * time.Minute
 	if thorough {
-		dl = 60 * time.Minute
+		budget = 50 * time.Minute
 	}
+	os.Setenv("C13_DEADLINE", fmt.Sprint(time.Now().Add(budget).Unix()))
+	dl := budget + 5*time.Minute
 	onCrash := func(job, output string) *ev.Violation {
 		return &ev.Violation{Sig: "storeinfo-patch|worker-crash", Detail: "worker " + job + " died: " + output, Replay: map[string]any{"job": job}}
 	}
@@ -703,15 +736,15 @@ func main() {
 
 	nText, nOpt := 0, 0
 	tx := map[string]bool{}
-	for _, c := range cases {
-		if c.Placement != "" {
+	for i := 0; i < cases.Len(); i++ {
+		if c := cases.At(i); c.Placement != "" {
 			nText++
 			tx[c.Text] = true
 		} else {
 			nOpt++
 		}
 	}
-	run.Set("cases_enumerated", len(cases))
+	run.Set("cases_enumerated", cases.Len())
 	run.Set("text_cases", nText)
 	run.Set("option_cases", nOpt)
 	run.Set("distinct_texts", len(tx))
@@ -729,6 +762,8 @@ func main() {
 		maxTok, len(tx), hist, map[bool]string{true: " x LeafLoadBalancing", false: ""}[thorough], ohist))
 	run.Assumption("Schema/KeyFields/ValueFields are inferred by the B-tree from the Go key/value types at the first Add and are not options the store was created with; they are excluded from the equality with the creation-time StoreInfo and only required to be stable once set")
 	run.Assumption("the cold view is a brand-new fs.StoreRepository over an empty L2 cache plus a direct parse of storeinfo.txt (equivalent to a fresh process: store info is cached only in L2, the L1 cache holds nodes/handles); the final reopen clears the process-wide L2 cache and goes through infs.OpenBtree")
+	run.Assumption("stores are created with IsPrimitiveKey=true (truthful for the int keys used; database.NewBtree does the same). With the default false, btree.New corrects the flag in memory only, so the file written at creation says false until the first count-changing commit rewrites it — a derived hint for language bindings, not checked here")
+	run.Assumption("\"correct count\" is judged against what the store really holds: when the persisted count equals the number of items found by a scan but differs from the committed history, the COMMIT dropped operations (observed: transactions that only remove items from an IsValueDataActivelyPersisted store return nil and change nothing). That is a lost-update defect outside C13; it is counted in bycatch_commit_lost_operation, sampled, and the model is resynchronised with the store. Set lostCommitIsViolation=true to fail on it")
 	run.Assumption("store names are limited to the generated domain (no path separators); names the API rejects at creation are counted (names_rejected_at_creation) and skipped")
 	run.Finish()
 }
